@@ -39,7 +39,7 @@ class Contract:
                  helpers=None, canaries=(), replay=None, known=(), note="", callee_only=False,
                  verify_only=False, exc_fields=None, effect=None, max_paths=20000, assumes=(), role="top",
                  ghost_init=None, callee_ensures=None, allow_no_exit=False, parallel=False, decorated=False,
-                 raises_any=False):
+                 raises_any=False, yield_may_raise=False):
         self.prop = prop
         self.file = file
         self.qualname = qualname
@@ -73,6 +73,7 @@ class Contract:
         self.parallel = parallel
         self.decorated = decorated          # verify the function as callers see it (through its decorators)
         self.raises_any = raises_any        # exceptional exits are not judged by this contract
+        self.yield_may_raise = yield_may_raise
 
     @property
     def modname(self):
@@ -421,7 +422,14 @@ def run_path(it, c, cfg, mod, node, res):
             from .interp import _is_generator
             if _is_generator(fnode):
                 ys = []
-                fr.yield_sink = lambda v: ys.append(v)
+
+                def sink(v):
+                    ys.append(v)
+                    if c.yield_may_raise and it.choose(2, "consumer raises at yield") == 1:
+                        it.ctx.ghost["block_raised"] = True
+                        raise PyRaise(ExcVal(KeyboardInterrupt if False else RuntimeError, ("raised inside the block",)))
+
+                fr.yield_sink = sink
                 it.exec_block(fnode.body, fr)
                 result = ys
             else:
